@@ -59,6 +59,7 @@ type rsPeer struct {
 	AllowOwnAS    int    `json:"allow_own_as"`
 	SendMax       int    `json:"send_max"` // ADD-PATH send-max towards this peer (0 = off)
 	AddPathRecv   bool   `json:"add_path_recv"`
+	PfxLimit      int    `json:"pfx_limit,omitempty"` // max-prefixes per family (0 = none)
 }
 
 type rsGlobal struct {
@@ -89,10 +90,14 @@ func rsApiPeer(g rsGlobal, p *rsPeer) *api.Peer {
 		ap.RouteReflector = &api.RouteReflector{RouteReflectorClient: true, RouteReflectorClusterId: rsRouterID}
 	}
 	for _, f := range []bgp.Family{bgp.RF_IPv4_UC, bgp.RF_IPv6_UC} {
-		ap.AfiSafis = append(ap.AfiSafis, &api.AfiSafi{
+		as := &api.AfiSafi{
 			Config:   &api.AfiSafiConfig{Family: c08ApiFamily(f), Enabled: true},
 			AddPaths: &api.AddPaths{Config: &api.AddPathsConfig{Receive: p.AddPathRecv, SendMax: uint32(p.SendMax)}},
-		})
+		}
+		if p.PfxLimit > 0 {
+			as.PrefixLimits = &api.PrefixLimit{Family: c08ApiFamily(f), MaxPrefixes: uint32(p.PfxLimit)}
+		}
+		ap.AfiSafis = append(ap.AfiSafis, as)
 	}
 	return ap
 }
